@@ -193,6 +193,8 @@ Definition target_outside_root (marker pth target : bytes) : bool :=
   if is_abs target then negb (contains (join2 marker target) marker)
   else negb (contains (join3 marker (dir_of pth) target) marker).
 
+Definition DDS : bytes := [DOT; DOT; SL].     (* "../" *)
+
 (* ------------------------------------------------------------------ unpack.go *)
 Inductive etype := TReg | TDir | TSym | THard | TOther.
 
@@ -212,11 +214,22 @@ Fixpoint bmem (x : bytes) (l : list bytes) : bool :=
 Definition required (req : bytes -> bool) (tg : list bytes) (full cp : bytes) : bool :=
   existsb (fun p => req p || bmem p tg) [full; cp; join2 [SL] cp].
 
-(* pathOutsideBaseDirectory(baseDir, fullPath) *)
+(* strings.TrimSuffix(s, "/") *)
+Definition trim_suffix_slash (s : bytes) : bytes :=
+  match rev s with
+  | c :: r => if c =? SL then rev r else s
+  | [] => s
+  end.
+
+(* pathOutsideBaseDirectory(baseDir, fullPath): the resolved parent must be Clean(baseDir) itself or
+   start with Clean(baseDir) + "/" (path-wise, since the fix c7e8b5e1) *)
 Definition path_outside_base (fs : fsmap) (base full : bytes) : bool :=
   match eval_symlinks fs (dir_of full) with
   | None => true
-  | Some resolved => negb (has_prefix (clean resolved) base)
+  | Some resolved =>
+      let c := clean resolved in
+      let b := clean base in
+      negb (beq c b || has_prefix c (trim_suffix_slash b ++ [SL]))
   end.
 
 Definition ustate := (fsmap * list bytes)%type.
@@ -226,6 +239,8 @@ Definition unpack_entry (cfg : ucfg) (req : bytes -> bool) (st : ustate) (e : en
   let '(fs, tg) := st in
   if (u_max cfg <? e_size e)%Z then (st, false) else
   let cp := clean (e_name e) in
+  (* zip-slip filter (fix c7e8b5e1): a cleaned name that still climbs is skipped before anything is created *)
+  if beq cp s_dotdot || has_prefix cp DDS then (st, false) else
   let full := join2 (u_dir cfg) cp in
   if is_some (klstat fs full) then (st, false) else
   if negb (required req tg full cp) then (st, false) else
@@ -340,7 +355,6 @@ Definition unpack_all (cfg : ucfg) (req : bytes -> bool) (fs : fsmap) (es : list
 
 (* ------------------------------------------------------------------ image.go (layer scanning) *)
 Definition WH : bytes := [46; 119; 104; 46].   (* ".wh." *)
-Definition DDS : bytes := [DOT; DOT; SL].     (* "../" *)
 
 Definition vtree := list (bytes * bool).   (* pathtree of the current chain layer: key -> isWhiteout *)
 
@@ -569,10 +583,38 @@ Definition layer_dir_okb (e : path) (d : bytes) : bool :=
 Definition layer_dirs_okb (e : path) (ls : list (bytes * list entry)) : bool :=
   forallb (fun l : bytes * list entry => layer_dir_okb e (fst l)) ls.
 
-(* domain D of the positive unpack theorem: every cleaned name stays below the target lexically and
-   no link target contains a ".." component *)
+(* ---- kept links, read lexically (claimed outside D as well) ----
+   A link left below the target whose stored target, read from the link's own directory, climbs
+   above the target (or an absolute one that is not below the target) must never be kept.  The only
+   way the current code keeps such a link is by creating it THROUGH an earlier link (entry names
+   that pass through the name of a link entry: the known "s -> ." shape), so the claim is made on
+   entry lists without that shape. *)
+Definition is_link_entry (e : entry) : bool :=
+  match e_type e with TSym | THard => true | _ => false end.
+
+Definition names_avoid_links (es : list entry) : bool :=
+  forallb (fun e =>
+             forallb (fun l => negb (is_link_entry l && negb (is_nil (csegs (e_name l))) &&
+                                     strict_below (csegs (e_name l)) (csegs (e_name e)))) es) es.
+
+Definition kept_link_lexically_inside (d : path) (p : path) (t : bytes) : bool :=
+  if is_abs t then seg_prefix d (csegs t)
+  else no_dotdot (clean_fold false [] (skipn (length d) (removelast p) ++ split_slash t)).
+
+Definition links_lexically_inside (d : path) (fs : fsmap) : bool :=
+  forallb (fun pn : path * node =>
+             match snd pn with
+             | NLink t => if strict_below d (fst pn) then kept_link_lexically_inside d (fst pn) t else true
+             | _ => true
+             end) fs.
+
+Definition no_links_below (d : path) (fs : fsmap) : bool :=
+  forallb (fun pn : path * node =>
+             match snd pn with NLink _ => negb (seg_prefix d (fst pn)) | _ => true end) fs.
+
+(* domain D of the positive unpack theorems: no link target contains a ".." component.  Entry
+   names are unrestricted (since the fix c7e8b5e1 climbing names are skipped by the code). *)
 Definition entry_in_D (e : entry) : bool :=
-  no_dotdot (csegs (e_name e)) &&
   match e_type e with
   | TSym | THard => no_dotdot (split_slash (e_link e))
   | _ => true
